@@ -17,6 +17,7 @@ import (
 	"math/rand"
 	"net"
 	"os"
+	"reflect"
 	"sort"
 	"strconv"
 	"sync"
@@ -24,6 +25,7 @@ import (
 	"syscall"
 	"testing"
 	"time"
+	"unsafe"
 
 	"golang.org/x/crypto/blake2b"
 )
@@ -207,6 +209,7 @@ type c13Case struct {
 	Rseed int64     `json:"rseed"`
 	G     int       `json:"g"`
 	Iters int       `json:"iters"`
+	Rbuf  int       `json:"rbuf"` // conc: length of every reader's buffer (0 = 2048)
 	Werr  int       `json:"werr"` // conc: every Werr-th underlying write fails (0 = none); the writer retries the packet
 }
 
@@ -220,8 +223,105 @@ func c13Xor(psk, salt, p []byte) []byte {
 	return out
 }
 
+// ---- white-box access by NAME.  The wrapper's struct (conn.go) is reached through reflection only: its
+// type names and its unexported fields (readMutex, writeMutex, the buffers) are a representation, not
+// the behaviour under test.  A field that is missing, or has another type, makes the observation
+// built on it "unavailable" (recorded in the case's output, see lockobs / c13LockNA); the behavioural
+// verdict runs all the same, so the harness builds against any tree that keeps the constructor and
+// the net.PacketConn surface.
+
+// c13Struct: the addressable struct behind the pointer returned by the constructor (invalid Value if
+// the wrapper is not a pointer to a struct)
+func c13Struct(w net.PacketConn) reflect.Value {
+	v := reflect.ValueOf(w)
+	if !v.IsValid() || v.Kind() != reflect.Pointer || v.IsNil() {
+		return reflect.Value{}
+	}
+	v = v.Elem()
+	if v.Kind() != reflect.Struct {
+		return reflect.Value{}
+	}
+	return v
+}
+
+// c13Field: the field of that name in the wrapper's struct or in a struct embedded in it (by value or
+// by pointer, as *obfsPacketConn is in obfsPacketConnUDP), as an addressable Value freed of reflect's
+// read-only mark; why = "" when found, else the reason it is not available
+func c13Field(w net.PacketConn, name string) (f reflect.Value, why string) {
+	defer func() {
+		if r := recover(); r != nil { // FieldByName through a nil embedded pointer
+			f, why = reflect.Value{}, "missing"
+		}
+	}()
+	st := c13Struct(w)
+	if !st.IsValid() {
+		return reflect.Value{}, "missing"
+	}
+	x := st.FieldByName(name)
+	if !x.IsValid() || !x.CanAddr() {
+		return reflect.Value{}, "missing"
+	}
+	return reflect.NewAt(x.Type(), unsafe.Pointer(x.UnsafeAddr())).Elem(), ""
+}
+
+var c13MutexType = reflect.TypeOf(sync.Mutex{})
+
+// c13Mutex: the sync.Mutex field of that name, or nil and why it cannot be observed
+func c13Mutex(w net.PacketConn, name string) (*sync.Mutex, string) {
+	f, why := c13Field(w, name)
+	if why != "" {
+		return nil, why
+	}
+	if f.Type() != c13MutexType {
+		return nil, "type " + f.Type().String()
+	}
+	return (*sync.Mutex)(unsafe.Pointer(f.UnsafeAddr())), ""
+}
+
+// lock observation after a returned call (no call in progress on the wrapper): compared with the lock
+// state of the model (model/C13_Lock.v) when it is available
+const (
+	c13LockFree = 0
+	c13LockHeld = 1
+	c13LockNA   = 2 // the field does not exist in this tree (or is not a sync.Mutex): not observed
+)
+
+func c13LockObs(w net.PacketConn, name string) int {
+	m, _ := c13Mutex(w, name)
+	if m == nil {
+		return c13LockNA
+	}
+	if m.TryLock() {
+		m.Unlock()
+		return c13LockFree
+	}
+	return c13LockHeld
+}
+
+// which of the white-box observations exist in this tree ("ok", "missing", "type T")
+func c13LockAvail(w net.PacketConn) map[string]string {
+	av := map[string]string{}
+	for _, name := range []string{"readMutex", "writeMutex"} {
+		if _, why := c13Mutex(w, name); why != "" {
+			av[name] = why
+		} else {
+			av[name] = "ok"
+		}
+	}
+	return av
+}
+
+// what quic-go needs from a UDP-flavoured conn (the method set of conn.go's udpLikePacketConn beyond
+// net.PacketConn), stated here so that the verdict does not depend on the wrapper's type names
+type c13UDPLike interface {
+	SyscallConn() (syscall.RawConn, error)
+	SetReadBuffer(int) error
+	SetWriteBuffer(int) error
+}
+
 // wrap a conn, then scramble the caller's key slice (the constructor must have copied it) and make
-// the salt source reproducible
+// the salt source reproducible (an instrument, not an observation: the salt is read back from the
+// wire in any case)
 func c13Wrap(conn net.PacketConn, psk []byte, seed int64) (net.PacketConn, error) {
 	k := append([]byte{}, psk...)
 	w, err := WrapPacketConnSalamander(conn, k)
@@ -231,40 +331,14 @@ func c13Wrap(conn net.PacketConn, psk []byte, seed int64) (net.PacketConn, error
 	if err != nil {
 		return nil, err
 	}
-	var o *obfsPacketConn
-	switch x := w.(type) {
-	case *obfsPacketConn:
-		o = x
-	case *obfsPacketConnUDP:
-		o = x.obfsPacketConn
-	}
-	if o != nil {
-		if s, ok := o.Obfs.(*salamanderObfuscator); ok && seed != 0 {
-			s.RandSrc = rand.New(rand.NewSource(seed))
+	if seed != 0 {
+		if f, why := c13Field(w, "Obfs"); why == "" && f.Kind() == reflect.Interface && !f.IsNil() {
+			if s, ok := f.Interface().(*salamanderObfuscator); ok {
+				s.RandSrc = rand.New(rand.NewSource(seed))
+			}
 		}
 	}
 	return w, nil
-}
-
-// the wrapper's struct behind the net.PacketConn returned by the constructor
-func c13Inner(w net.PacketConn) *obfsPacketConn {
-	switch x := w.(type) {
-	case *obfsPacketConn:
-		return x
-	case *obfsPacketConnUDP:
-		return x.obfsPacketConn
-	}
-	return nil
-}
-
-// c13Held: is the mutex held although no call is in progress on the wrapper (white-box observation,
-// compared with the lock state of the model)
-func c13Held(m *sync.Mutex) bool {
-	if m.TryLock() {
-		m.Unlock()
-		return false
-	}
-	return true
 }
 
 type c13Fail struct{ why []string }
@@ -536,15 +610,16 @@ func c13Stream(c c13Case, res map[string]any, f *c13Fail, rs int64) {
 		return
 	}
 	if c.UDP {
-		if _, ok := a.(*obfsPacketConnUDP); !ok {
-			f.add("UDP-like conn not wrapped as obfsPacketConnUDP")
+		if _, ok := a.(c13UDPLike); !ok {
+			f.add("UDP-like conn not wrapped as obfsPacketConnUDP (SyscallConn/SetReadBuffer/SetWriteBuffer are not passed through)")
 		}
 	}
+	res["lockobs"] = c13LockAvail(b)
 	var evs []c13Ev
 	writes := []map[string]any{}
 	nW, lastErrW, lastErrCode := 0, -1, 0
-	wlocks := []bool{} // per returned WriteTo: writeMutex found held afterwards
-	rlocks := []bool{} // per returned ReadFrom: readMutex found held afterwards
+	wlocks := []int{} // per returned WriteTo: writeMutex afterwards (c13LockFree / c13LockHeld / c13LockNA)
+	rlocks := []int{} // per returned ReadFrom: readMutex afterwards
 	for _, it := range c.Items {
 		d := it.D.bytes()
 		switch it.T {
@@ -565,7 +640,7 @@ func c13Stream(c c13Case, res map[string]any, f *c13Fail, rs int64) {
 					f.add("WriteTo did not return within %s (write #%d, %d bytes)", waited, nW, len(d0))
 				}
 				writes = append(writes, map[string]any{"wire": "", "n": -1, "err": 997, "stuck": true})
-				wlocks = append(wlocks, true)
+				wlocks = append(wlocks, c13LockHeld)
 				nW++
 				ua = &c13Conn{peer: ub}
 				ca = ua
@@ -582,13 +657,13 @@ func c13Stream(c c13Case, res map[string]any, f *c13Fail, rs int64) {
 			if it.Err != 0 {
 				lastErrW, lastErrCode = nW-1, it.Err
 			}
-			if in := c13Inner(a); in != nil {
-				held := c13Held(&in.writeMutex)
+			{
+				held := c13LockObs(a, "writeMutex")
 				wlocks = append(wlocks, held)
-				if held {
+				if held == c13LockHeld {
 					f.add("writeMutex is still held after WriteTo returned (write #%d, n=%d err=%d): every later WriteTo on this socket blocks", nW-1, n, c13Code(werr))
 				}
-				if c13Held(&in.readMutex) {
+				if c13LockObs(a, "readMutex") == c13LockHeld {
 					f.add("readMutex is held after WriteTo returned (write #%d) with no ReadFrom in progress", nW-1)
 				}
 			}
@@ -658,12 +733,12 @@ func c13Stream(c c13Case, res map[string]any, f *c13Fail, rs int64) {
 			break
 		}
 		code := c13Code(rerr)
-		if in := c13Inner(b); in != nil {
-			held := c13Held(&in.readMutex)
+		{
+			held := c13LockObs(b, "readMutex")
 			if code != c13Drained {
 				rlocks = append(rlocks, held)
 			}
-			if held {
+			if held == c13LockHeld {
 				f.add("readMutex is still held after ReadFrom returned (read #%d, n=%d err=%d): every later ReadFrom on this socket blocks", len(reads), n, code)
 			}
 		}
@@ -704,7 +779,11 @@ func c13Stream(c c13Case, res map[string]any, f *c13Fail, rs int64) {
 				}
 				continue
 			}
-			if n != wl-8 {
+			if e.payload != nil && len(e.payload) == wl-8 && len(buf) >= len(e.payload) && len(buf) < wl && n != len(e.payload) {
+				// the caller's buffer has room for the packet; it need not have room for the salt as well
+				f.add("short read: a %d-byte reader buffer holds the %d-byte payload, but ReadFrom returned %d bytes (wire packet %d bytes = %d-byte salt + payload)",
+					len(buf), len(e.payload), n, wl, wl-len(e.payload))
+			} else if n != wl-8 {
 				f.add("ReadFrom reported %d bytes for a %d-byte wire packet", n, wl)
 			} else if e.payload != nil && !bytes.Equal(buf[:n], e.payload) {
 				f.add("payload changed in transit (%d bytes, key %d bytes)", len(e.payload), len(psk))
@@ -717,13 +796,24 @@ func c13Stream(c c13Case, res map[string]any, f *c13Fail, rs int64) {
 	// every valid packet that fits the caller's buffer surfaces exactly once, in order
 	ai := 0
 	for idx, e := range evs {
-		must := e.err == 0 && e.payload != nil && len(e.payload) <= c.Plen
+		// (whatever its payload is: a datagram of more than 8 bytes is a packet of this key, a foreign or junk one
+		// included; a known payload is len(wire)-8 bytes long)
+		wl := min(len(e.data), udpBufferSize)
+		must := e.err == 0 && ((e.payload != nil && len(e.payload) <= c.Plen) || (wl > 8 && wl-8 <= c.Plen))
 		for ai < len(attributed) && attributed[ai] < idx {
 			ai++
 		}
 		got := ai < len(attributed) && attributed[ai] == idx
+		if e.err != 0 && !got {
+			// an error of the socket below is never swallowed by the drop-and-retry loop
+			f.add("underlying read error %d (event %d, %d-byte datagram) was not returned to the caller (reader buffer %d bytes)", e.err, idx, wl, c.Plen)
+		}
 		if must && !got {
-			f.add("valid %d-byte packet (event %d) never surfaced", len(e.payload), idx)
+			pl := wl - 8
+			if e.payload != nil {
+				pl = len(e.payload)
+			}
+			f.add("valid %d-byte packet (event %d) never surfaced (reader buffer %d bytes)", pl, idx, c.Plen)
 		}
 	}
 	for j := 1; j < len(attributed); j++ {
@@ -823,6 +913,10 @@ func c13Conc(c c13Case, res map[string]any, f *c13Fail, rs int64) {
 		data []byte
 		addr int
 	}
+	rbuf := c.Rbuf
+	if rbuf == 0 {
+		rbuf = 2048
+	}
 	var rmu sync.Mutex
 	var recvd [2][]got
 	var rwg, wwg sync.WaitGroup
@@ -831,7 +925,7 @@ func c13Conc(c c13Case, res map[string]any, f *c13Fail, rs int64) {
 			rwg.Add(1)
 			go func(s int) {
 				defer rwg.Done()
-				buf := make([]byte, 2048)
+				buf := make([]byte, rbuf)
 				for {
 					n, addr, err := wr[s].ReadFrom(buf)
 					if err != nil {
